@@ -1,7 +1,7 @@
 PROP = {
     "title": "Decoders and string-argument APIs are total: errors are returned, never panics",
     "run_modules": ["RunXml", "RunKV"],
-    "gen": ["sites"],
+    "gen": ["sites", "setters", "pure"],
     "n": {"quick": 3000, "thorough": 40000},
     "level": "proof",
     "technique": "Coq no-panic / fails-iff theorems over the executable models (all token lists, all Maps, all argument strings) + correspondence on malformed inputs (panic compared as a result class) + Go-side oracle in a crash-isolated worker process under a timeout",
